@@ -46,6 +46,13 @@ POOL = [
     ("[4, 2] %num.add undefined_name", []),
     ("[4, 2] %num.add", []),
     ("'q = %m.nope, 1", []),
+    # a process spawned by one line and used by later ones; its receive type admits several concrete tuple types,
+    # and the message is a literal whose concrete type no earlier line mentioned (seeded change C11-3: workers got
+    # only the parameter-compatibility rows of the functions a merge ADDED, so the rows of functions from earlier
+    # lines went stale and the process never took the message)
+    ("p = @#{ !#['int | 'bin, 'int] }", ["p"]),
+    ("[1, 42] p", []),
+    ("! [p, 100]", []),
 ]
 MODULES = {"m": "[add: #['int, 'int] { __integer_add__ }, one: 1]"}
 
@@ -56,6 +63,9 @@ SPLIT_PROGRAMS = [
     ["k = [0x01, 0x02] __binary_concat__", "t = [k, k]", "k = 0", "t", "[~, k]"],
     ["[a, b] = [1, 2]", "a =1", "[b, ~]", "c = ~", "[a, c]"],
     ["x = 1", "{ x = 2, x }", "[~, x]", "x = [~, 3]", "x"],
+    # a process spawned, sent to and awaited by different lines (see the pool)
+    ["p = @#{ !#['int | 'bin, 'int] }", "[1, 42] p", "! [p, 100]"],
+    ["w = @#{ !#(A['int] | B['bin, 'int]) { | =A[n] => n | =B[_, n] => [n] } }", "k = 5", "B[0x01, k] w", "[! [w, 100], k]"],
 ]
 
 
